@@ -3,6 +3,9 @@ import json, os
 import vlib
 
 
+ENGINE_FILES = ["zz_verif_engine_test.go", "zz_verif_engine_monitor_test.go"]
+
+
 def classify_engine(op, impl):
     # distinct & non-trivial = an operation sequence whose replies include at least one grant (result 0) — keyed by its op text hash
     if ":0:" in impl:
@@ -27,7 +30,7 @@ def read_monitor(ctx, outdir, mode, prefixes):
 
 
 def run_engine(ctx, prefixes, n_quick=250, n_thorough=4000, mode="engine", extra=None, ops=40):
-    exe = ctx.build_harness("server")
+    exe = ctx.build_harness("server", only=ENGINE_FILES)
     if not exe:
         return
     n = n_quick if ctx.tier == "quick" else n_thorough
@@ -40,6 +43,11 @@ def run_engine(ctx, prefixes, n_quick=250, n_thorough=4000, mode="engine", extra
             continue
         dis = ctx.diff(outdir, mode, classify=classify_engine)
         seen = read_monitor(ctx, outdir, mode, prefixes)
+        sp = os.path.join(outdir, mode + ".stats")
+        if os.path.exists(sp):
+            dist = ctx.cov.setdefault("distribution", {})
+            for k, v in json.load(open(sp)).items():
+                dist[k] = dist.get(k, 0) + v
         ctx.cov.setdefault("monitor_signatures_seen", {}).update(seen)
         if dis:
             d = dis[0]
